@@ -261,7 +261,19 @@ def in_memory(h):
         cache.attrs['__entries__'].append((k, TrajRec(ROW(z3.IntVal(k)), fid=ids[k])))
     st = make_store(h, I, 'CREATE', None, cache, next_index=n, indexable=True, index_group=None, index_stale=True,
                     in_memory=True)
-    op = h.choice(2)
+    op = h.choice(3)
+    if op == 2:
+        # the invariant every lookup rests on: the index is marked stale unless the index group holds an entry for every row.
+        # An in-memory store has no index group, so nothing it does before being saved may clear the mark (save() builds the
+        # index only for a store that is still marked)
+        try:
+            h.method(st, '_reindex')
+        except PyExc as e:
+            h.fail('no-internal-error', '_reindex on an in-memory store: ' + repr(e.inst) + ' at ' + str(e.inst.where))
+            return
+        h.ensure('store-without-an-index-stays-marked-stale', st.attrs.get('index_stale') is True and st.attrs.get('index_group') is None,
+                 note=f'index_stale = {st.attrs.get("index_stale")!r} after _reindex on an in-memory store')
+        return
     if op == 0:
         x = h.int('flight_id')
         try:
@@ -395,6 +407,35 @@ def replay_memory(payload):
             ts.close()
         except Exception as e:   # noqa
             problems.append(f'close raised {type(e).__name__}: {e}')
+        # in memory, synchronised (harmless), then saved: lookups on the saved store and after reopening
+        import os
+        import shutil
+        import tempfile
+        tmp = tempfile.mkdtemp(prefix='c08m-', dir=os.environ.get('VERIF_SCRATCH'))
+        try:
+            TrajectoryStore.active_in_thread = None
+            ts = TrajectoryStore.create()
+            ts.add(_mk(0, fid=7))
+            ts.add(_mk(1, fid=3))
+            ts.sync()
+            path = os.path.join(tmp, 'saved.nc')
+            ts.save(path)
+            for when in ('after sync() and save()', 'after reopening the saved file'):
+                for fid, mass in ((7, 1000.0), (3, 1001.0)):
+                    try:
+                        t = ts.get_flight(fid)
+                        if t is None or t.starting_mass != mass:
+                            problems.append(f'{when}: get_flight({fid}) gives {None if t is None else t.starting_mass}')
+                    except Exception as e:   # noqa
+                        problems.append(f'{when}: get_flight({fid}) raised {type(e).__name__}: {e}')
+                ts.close()
+                TrajectoryStore.active_in_thread = None
+                if when.startswith('after sync'):
+                    ts = TrajectoryStore.open(base_file=path)
+        except Exception as e:   # noqa
+            problems.append(f'in-memory store saved after sync(): {type(e).__name__}: {e}')
+        finally:
+            shutil.rmtree(tmp, ignore_errors=True)
         return dict(reproduced=bool(problems), observed=problems[:6])
     finally:
         TrajectoryStore.active_in_thread = None
